@@ -108,8 +108,9 @@ Cases(V, maxn, Scales) ==
   \cup {[BaseCase EXCEPT !.mode = "mm", !.xs = xs, !.minrange = mr] : xs \in VS, mr \in {0, 5, 100}}
   \cup UNION {{[BaseCase EXCEPT !.mode = "st", !.xs = xs, !.steps = st, !.scales = sc] :
                   sc \in SeqsN(Scales, Len(st) + 1), xs \in {Grid(50), WithNaNs(Grid(50))}} : st \in SortedSubseqs(<<10, 20, 30, 40>>)}
-CaseSet == IF IOEnv.TIER = "quick" THEN Cases({R(0), R(7), <<61, 2>>, R(60), NaN}, 3, {1, 2, 5})
-           ELSE Cases({R(0), R(7), <<61, 2>>, R(30), R(60), NaN}, 4, {1, 2, 5, 1000})
+(* the physical range includes negative values (time deltas) and zero *)
+CaseSet == IF IOEnv.TIER = "quick" THEN Cases({R(-60), R(-15), R(0), R(7), <<61, 2>>, R(60), NaN}, 3, {1, 2, 5})
+           ELSE Cases({R(-60), R(-15), R(0), R(7), <<61, 2>>, R(30), R(60), NaN}, 4, {1, 2, 5, 1000})
 
 (* ---- jobs ---- *)
 VARIABLES job, done
